@@ -42,9 +42,11 @@ def run_sankey(desc):
     for i, f in enumerate(desc["flows"]):
         ad = {"letters": f["letters"], "mode": "coded", "tag": "xyzwpq"[i % 6], "mem": f.get("mem")}
         arr = build.array(U, ad)
-        flows[f["name"]] = fd.Flow(dims=arr.dims, values=arr.values + i, name=f["name"], from_process=pl[f["src"]], to_process=pl[f["dst"]])
         m = build.marr(U, ad)
-        marrs[f["name"]] = m.map(lambda v, i=i: v + i)
+        # net flows (trade balances, stock changes) have entries of either sign: shift by the median entry if asked to
+        shift = float(i) - (float(sorted(m.data.values())[len(m.data) // 2]) + 0.5 if f.get("signed") else 0.0)
+        flows[f["name"]] = fd.Flow(dims=arr.dims, values=arr.values + shift, name=f["name"], from_process=pl[f["src"]], to_process=pl[f["dst"]])
+        marrs[f["name"]] = m.map(lambda v, shift=shift: v + shift)
     mfa = fd.MFASystem(dims=build.dimset(U), parameters={}, processes=procs, flows=flows, stocks={})
     slice_dict = dict(desc["slice"])
     excl_p = list(desc["exclude_processes"])
@@ -105,7 +107,7 @@ def run_sankey(desc):
         raise Violation("sankey-links-differ", f"missing {miss} unexpected {extra}; slice {slice_dict} excluded processes {excl_p} flows {excl_f}")
     n_shown = sum(exp.values())
     split = any(isinstance(f.get("color"), dict) for f in desc["flows"])
-    cl = [f"shown-links:{min(n_shown, 5)}"] + (["replotted-after-change"] if desc.get("replot") else []) + (["sliced"] if slice_dict else []) + (["split"] if split else []) + (["excluded-flows"] if excl_f else [])
+    cl = [f"shown-links:{min(n_shown, 5)}"] + (["replotted-after-change"] if desc.get("replot") else []) + (["sliced"] if slice_dict else []) + (["split"] if split else []) + (["excluded-flows"] if excl_f else []) + (["negative-link-values"] if any(k[2] < 0 for k in exp) else [])
     return {"nontrivial": n_shown >= 2 and (bool(slice_dict) or split), "classes": cl}
 
 
@@ -133,6 +135,7 @@ def sankey_cases(draw):
         taken.add(f["name"])
         if len(f["letters"]) >= 2:
             f["mem"] = draw(st.sampled_from(["C", "C", "F"]))
+        f["signed"] = draw(st.integers(0, 3)) == 0
         flows.append(f)
     slice_dict = {}
     for l in allL:
